@@ -169,14 +169,15 @@ Proof. rewrite sql_canon_eq. reflexivity. Qed.
 
 Lemma nonwrite_same o db : writes o = false -> fst (sql_step D db o) = db.
 Proof.
-  intros H. rewrite sql_canon_eq. destruct o; try discriminate; cbn;
-    try (destruct (lookup k db) as [[c0 v0]|]); reflexivity.
+  intros H. rewrite sql_canon_eq. destruct o; try discriminate; cbn -[sql_window];
+    try (destruct (lookup k db) as [[c0 v0]|]); try (destruct (sql_window _ _ _)); reflexivity.
 Qed.
 
 Lemma stmt_not_busy o db : is_mutate o = false -> is_busy (snd (sql_step D db o)) = false.
 Proof.
-  intros H. rewrite sql_canon_eq. destruct o; try discriminate; cbn;
+  intros H. rewrite sql_canon_eq. destruct o; try discriminate; cbn -[sql_window];
     try (destruct (lookup k db) as [[c0 v0]|]); try reflexivity;
+    try (destruct (sql_window _ _ _); [|reflexivity]);
     unfold walk_result; destruct (visit _ _); reflexivity.
 Qed.
 
@@ -356,3 +357,62 @@ Definition mutate_in_txb (evs : list ev) : bool :=
 Definition single_statementb (evs : list ev) : bool :=
   forallb (call_on HDb) evs && Nat.eqb (List.length (filter is_call evs)) 1 &&
   negb (existsb tx_event evs).
+
+(** ** What the lock ladder excludes (the forced schedules of the harness)
+
+    While a connection is inside a mutate transaction, the committed database
+    can only change by that transaction's own commit: every write another
+    connection attempts in the meantime can only be refused (BUSY). *)
+Theorem sql_tx_excludes_writes cfg cfg' j :
+  qstep D cfg cfg' -> in_tx (qths cfg j) ->
+  qdb cfg' = qdb cfg \/
+  (exists k f img todo, qths cfg j = QWritten k f img todo /\ qdb cfg' = img).
+Proof.
+  intros Hs Hj.
+  destruct Hs as [i o todo cfg Hi | i k f v todo cfg Hi | i k f img todo cfg Hi
+                 | i o todo cfg Hi Hm Hg
+                 | i k f todo cfg Hi Hsel | i k f v vs todo cfg Hi Hsel | i k f todo cfg Hi Hsel
+                 | i k f v e todo cfg Hi Hf
+                 | i k f v v' img todo cfg Hi Hf Hg Hu
+                 | i k f v v' img n todo cfg Hi Hf Hu Hn
+                 | i k f v v' todo cfg Hi Hf Hu
+                 | i k f img todo cfg Hi Hg]; cbn [qret qdb]; auto.
+  - (* an autocommit statement *)
+    destruct (writes o) eqn:Hw; [|left; now apply nonwrite_same].
+    exfalso. destruct (Nat.eq_dec j i) as [->|Hne].
+    + rewrite Hi in Hj. exact Hj.
+    + exact (Hg eq_refl j Hne Hj).
+  - (* a commit: only the transaction's own *)
+    destruct (Nat.eq_dec j i) as [->|Hne].
+    + right. exists k, f, img, todo. split; [exact Hi|reflexivity].
+    + exfalso. exact (Hg j Hne Hj).
+Qed.
+
+(** Two connections cannot both hold a pending write (RESERVED). *)
+Definition reserved_unique (cfg : qconfig) : Prop :=
+  forall i j, has_reserved (qths cfg i) -> has_reserved (qths cfg j) -> i = j.
+
+Theorem sql_reserved_unique bprog db0 cfg :
+  qreachable D (qinit bprog db0) cfg -> reserved_unique cfg.
+Proof.
+  intros Hr. induction Hr as [|c1 c2 _ IH Hs].
+  - intros i j Hi. cbn in Hi. contradiction.
+  - assert (forall cfg i todo db o r, reserved_unique cfg ->
+              reserved_unique (qret cfg db i todo o r)) as Hret.
+    { intros cfg i todo db o r Hu a b Ha Hb. cbn [qret qths] in *.
+      destruct (Nat.eq_dec a i) as [->|Ha']; [rewrite qset_same in Ha; contradiction|].
+      destruct (Nat.eq_dec b i) as [->|Hb']; [rewrite qset_same in Hb; contradiction|].
+      rewrite qset_other in Ha, Hb by assumption. now apply Hu. }
+    destruct Hs; try (now apply Hret).
+    + (* SELECT: the new state holds no RESERVED *)
+      intros a b Ha Hb. cbn [qths] in *.
+      destruct (Nat.eq_dec a i) as [->|Ha']; [rewrite qset_same in Ha; contradiction|].
+      destruct (Nat.eq_dec b i) as [->|Hb']; [rewrite qset_same in Hb; contradiction|].
+      rewrite qset_other in Ha, Hb by assumption. now apply IH.
+    + (* UPDATE: granted only if nobody else holds RESERVED *)
+      intros a b Ha Hb. cbn [qths] in *.
+      destruct (Nat.eq_dec a i) as [->|Ha']; destruct (Nat.eq_dec b i) as [->|Hb']; auto.
+      * rewrite qset_other in Hb by assumption. exfalso. eapply H1; eauto.
+      * rewrite qset_other in Ha by assumption. exfalso. eapply H1; eauto.
+      * rewrite qset_other in Ha, Hb by assumption. now apply IH.
+Qed.
